@@ -21,11 +21,16 @@ TEXTS = {
   "Quantity.__new__ is the single choke point (frame scan: no other raw instance creation or _amount store except allocate) and is verified to store q_round(exact value, unit) = rnd(x/quantum, default mode)*quantum for every numeric kind, unit and class; every producing operation under contract has a postcondition of the shape amount == q_round(<exact expression>) i.e. one rounding of the exact result; distance < 1 quantum, <= 1/2 under the half modes, and the side conditions of the directed modes are lemmas over the textbook relation round_rel. The rounding itself (decimalfp Decimal(x, 0)) is an assumed dependency contract, monitored by the stand-in under all 8 modes."),
  "C13": dict(category="proof", technique=_TECH, note=_TB, text=
   "_floordiv_rounded is verified against the textbook relation round_rel for all integers x, y>0 and all 8 modes (explicit or default) incl. ties; _quantize_fraction, Quantity.quantize (both representation paths; the Decimal path through the assumed contract of Decimal.quantize) and __round__ are verified to return the multiple selected by the mode in the receiver's unit and class, TypeError for other types / no reference unit. Tie behaviour of each mode is a lemma. Representation independence = both paths meet the same spec; its Decimal half rests on A2 and is monitored by the stand-in on tie grids."),
+
+ "C02": dict(category="proof", technique=_TECH, note=_TB + " Term operations enter through assumed contracts over the denotation `den` (listed in the evidence as 'assumed contract (C07)'); DirInv/CacheInv are preconditions instantiated at the looked-up keys and evaluated on the live directories by the stand-in.", text=
+  "Unit.__mul__/__truediv__/__rtruediv__/__pow__, _amnt_and_unit_from_term and Quantity.__mul__/__truediv__/__rtruediv__/__pow__ are verified for every operand kind: a result (amount, unit) always denotes exactly the product/quotient/power of the operands' denotations (numeric factor and dimension vector), the quantity's type is the unit's type, the amount is rounded once, a plain exact number is returned when the dimension vector cancels, and UndefinedResultError is raised exactly when the term->unit directory has no entry for the dimension (with or without numeric factor); on that path nothing is cached. The directory lookup rule itself is proved from the real registry code (dict + bucket lists)."),
+ "C17": dict(category="proof", technique=_TECH, note=_TB, text=
+  "History independence is reduced to invariants: every value-level postcondition of the unit/quantity algebra is proved for an arbitrary op-cache satisfying CacheInv and an arbitrary directory satisfying DirInv and mentions neither; the miss path preserves CacheInv for every key (ghost-quantified), the hit path returns the cached entry which denotes the same value (lemma hit-equals-miss), the error path stores nothing, so a later evaluation after the missing type is declared runs the miss path again. The stand-in replays random interleavings of declarations and operations in fresh interpreters and compares by reference value and type."),
 }
 
 NOT_APPLICABLE = {p: "contracts for this property are not built yet in this round of the framework (see DESIGN.md section 5 for the plan); not claimed until its check exists"
-                  for p in ["C02", "C06", "C07", "C08", "C09", "C10", "C11", "C12",
-                            "C14", "C15", "C16", "C17", "C18", "C19", "C20"]}
+                  for p in ["C06", "C07", "C08", "C09", "C10", "C11", "C12",
+                            "C14", "C15", "C16", "C18", "C19", "C20"]}
 
 NOTES = ("One engine (pyvc) serves all checks. `./check <id> quick|thorough` re-reads /repo/src on every run. "
          "Exit 0 held / 1 VIOLATION line(s) / 3 engine error. Bounded stand-ins run real code under /venv/bin/python "
